@@ -340,12 +340,19 @@ def _run_s(case):
           del recs[:]
           del env.constructed[:]
           before_types = sorted(c.__name__ for c in t.descriptor.plug_types)
+          before_opts = json.dumps(_snap(t._test_options), sort_keys=True, default=str)
+          # station-wide settings vary from run to run; they must not stick to the Test
+          sof = (step[1] + 2 * k) % 4 == 1
+          env.conf.load(stop_on_first_failure=sof, _override=True)
           # some runs are started by a trigger phase that needs a plug of its own
           with_trigger = (step[1] + k) % 3 == 0
           if with_trigger:
             t.execute(test_start=env.trigger)
           else:
             t.execute()
+          env.conf._loaded_values.pop('stop_on_first_failure', None)
+          if json.dumps(_snap(t._test_options), sort_keys=True, default=str) != before_opts:
+            facts.append('X:test-options-changed-by-a-run')
           if env.conf.c11_settings != {'token': ['secret']}:
             facts.append('X:global-configuration-changed-by-a-run')
             env.conf.c11_settings['token'][:] = ['secret']
@@ -357,9 +364,9 @@ def _run_s(case):
             facts.append('X:no-record')
             break
           c = json.dumps(_canon_record(recs[0]), sort_keys=True, default=str)
-          first = firsts.get(with_trigger)
+          first = firsts.get((with_trigger, sof))
           if first is None:
-            firsts[with_trigger] = c
+            firsts[(with_trigger, sof)] = c
           elif c != first:
             facts.append('X:repeated-run-gives-a-different-record')
           if recs[0].outcome.name not in ('PASS', 'FAIL'):   # FAIL: a measurement added to a derived phase is never set
